@@ -125,18 +125,49 @@ func ruleP4(c *Ctx) {
 	// (d) skippable errors
 	if tr := c.mustFunc("bql/planner", "tripleToRow"); tr != nil {
 		n := 0
-		for _, r := range c.returnsOf(tr) {
-			rv := resultValues(r)
-			mi, ok := rv[1].(*ssa.MakeInterface)
-			if !ok || !isNamed(mi.X.Type(), modPath+"/bql/planner", "skippableError") {
-				continue
+		// in tripleToRow itself and in the same-package helpers it calls (parameters read as the arguments given)
+		var scan func(f *ssa.Function, ctxFound, ctxTruth bool, d int)
+		scan = func(f *ssa.Function, ctxFound, ctxTruth bool, d int) {
+			for _, r := range c.returnsOf(f) {
+				rv := resultValues(r)
+				if len(rv) < 2 {
+					continue
+				}
+				mi, ok := rv[len(rv)-1].(*ssa.MakeInterface)
+				if !ok || !isNamed(mi.X.Type(), modPath+"/bql/planner", "skippableError") {
+					continue
+				}
+				n++
+				found, truth := c.factOnTerm(f, r.Block(), ".Optional")
+				if !found {
+					found, truth = ctxFound, ctxTruth
+				}
+				key := fmt.Sprintf("tripleToRow skip #%d only for non-optional clauses", n)
+				c.check(found && !truth, key, r.Pos(), "skippableError returned on the !cls.Optional edge", fmt.Sprintf("the skippableError return at %s is not confined to non-optional clauses: an optional clause drops the triple instead of yielding NULL", c.pos(r.Pos())))
 			}
-			n++
-			found, truth := c.factOnTerm(tr, r.Block(), ".Optional")
-			key := fmt.Sprintf("tripleToRow skip #%d only for non-optional clauses", n)
-			c.check(found && !truth, key, r.Pos(), "skippableError returned on the !cls.Optional edge", fmt.Sprintf("the skippableError return at %s is not confined to non-optional clauses: an optional clause drops the triple instead of yielding NULL", c.pos(r.Pos())))
+			if d >= 2 {
+				return
+			}
+			seenCallee := map[*ssa.Function]bool{}
+			allInstrs(f, func(in ssa.Instruction) {
+				cc := callCommon(in)
+				if cc == nil {
+					return
+				}
+				callee := helperCallee(f, cc)
+				if callee == nil || callee.Parent() != nil || seenCallee[callee] || errorResultIndex(callee.Signature) < 0 {
+					return
+				}
+				seenCallee[callee] = true // one visit per helper: its returns are counted once
+				fo, to := c.factOnTerm(f, in.Block(), ".Optional")
+				if !fo {
+					fo, to = ctxFound, ctxTruth
+				}
+				intoHelper(callee, cc, func() { scan(callee, fo, to, d+1) })
+			})
 		}
-		if n < 6 {
+		scan(tr, false, false, 0)
+		if n < 4 {
 			c.undecided("tripleToRow skippable returns", tr.Pos(), "only %d skippableError returns found", n)
 		}
 	}
@@ -232,14 +263,25 @@ func ruleP10(c *Ctx, rels ...string) {
 				}
 			}
 		})
-		var ks []string
+		// one finding per (ordering function, rendering): through which helper the text arrives is detail, not identity
+		byKind := map[string][]string{}
 		for s := range srcs {
-			ks = append(ks, s)
+			kind := s
+			if i := strings.Index(s, " via "); i >= 0 {
+				kind = s[:i]
+			}
+			byKind[kind] = append(byKind[kind], s)
+		}
+		var ks []string
+		for k := range byKind {
+			ks = append(ks, k)
 		}
 		sort.Strings(ks)
-		for _, s := range ks {
+		for _, k := range ks {
 			n++
-			c.bad(funcName(fn)+" orders by "+s, srcs[s], "a string ordering at %s compares text produced by %s: the rendering is not order preserving (negative numbers, exponents, time zones), so rows are sorted or compared wrongly", c.pos(srcs[s]), s)
+			sort.Strings(byKind[k])
+			first := byKind[k][0]
+			c.bad(funcName(fn)+" orders by "+k, srcs[first], "a string ordering at %s compares text produced by %s: the rendering is not order preserving (negative numbers, exponents, time zones), so rows are sorted or compared wrongly", c.pos(srcs[first]), strings.Join(byKind[k], ", "))
 		}
 	}
 	if n == 0 {
@@ -251,18 +293,18 @@ func ruleP10(c *Ctx, rels ...string) {
 
 // p11Reviewed: map ranges with an order-sensitive body that were read and found harmless, one reason each.
 var p11Reviewed = map[string]string{
-	"(*semantic.GraphClause).Bindings map range #1":  "collects the clause's binding names; every consumer treats the list as a set (table.New, HasBinding, AddBindings); the projection order comes from the statement, not from here",
-	"(*semantic.Statement).Bindings map range #1":    "collects binding names; consumed as a set",
-	"(*table.Table).DotProduct map range #3":         "rebuilds the column list from the binding set; columns are a set, the rows are produced by the nested slice loops in left-major order",
-	"(*table.Table).LeftOptionalJoin map range #1":   "rebuilds the column list from the binding set (a set)",
-	"(*memory.memoryStore).GraphNames map range #1":  "GraphNames promises the set of names, no order (property C01); SHOW GRAPHS rows without ORDER BY are unordered",
-	"planner.organizeClausesByBinding map range #1":  "appends the clause once to each of its bindings' lists; the order inside each list follows the clause slice, not the map",
-	"table.joinWithRange map range #1":               "sort-key list built from the shared bindings; both tables are sorted with the same list, so only the (unspecified) order of result rows can vary, not the multiset",
-	"table.joinWithRange map range #2":               "rebuilds the column list from the binding set (a set)",
+	"(*semantic.GraphClause).Bindings map range #1": "collects the clause's binding names; every consumer treats the list as a set (table.New, HasBinding, AddBindings); the projection order comes from the statement, not from here",
+	"(*semantic.Statement).Bindings map range #1":   "collects binding names; consumed as a set",
+	"(*table.Table).DotProduct map range #3":        "rebuilds the column list from the binding set; columns are a set, the rows are produced by the nested slice loops in left-major order",
+	"(*table.Table).LeftOptionalJoin map range #1":  "rebuilds the column list from the binding set (a set)",
+	"(*memory.memoryStore).GraphNames map range #1": "GraphNames promises the set of names, no order (property C01); SHOW GRAPHS rows without ORDER BY are unordered",
+	"planner.organizeClausesByBinding map range #1": "appends the clause once to each of its bindings' lists; the order inside each list follows the clause slice, not the map",
+	"table.joinWithRange map range #1":              "sort-key list built from the shared bindings; both tables are sorted with the same list, so only the (unspecified) order of result rows can vary, not the multiset",
+	"table.joinWithRange map range #2":              "rebuilds the column list from the binding set (a set)",
 }
 
 func ruleP11(c *Ctx, rels ...string) {
-	c.Rule("P11", "no map iteration order reaches an ordered output: every range over a map whose body appends, sends, writes, or stops at the first match either sorts what it built before it escapes or is in the reviewed table with a reason", 9)
+	c.Rule("P11", "no map iteration order reaches an ordered output: every range over a map whose body appends, sends, writes, or stops at the first match either sorts what it built before it escapes or is in the reviewed table with a reason", 6)
 	nSens := 0
 	for _, fn := range c.srcFuncs(rels...) {
 		fi := c.fi(fn)
@@ -370,9 +412,77 @@ func ruleP11(c *Ctx, rels ...string) {
 					onlyAppend = false
 				}
 			}
+			// where does the slice built by the loop end up?
+			dests := map[string]bool{}
+			if onlyAppend {
+				seenV := map[ssa.Value]bool{}
+				var follow func(v ssa.Value, d int)
+				follow = func(v ssa.Value, d int) {
+					if seenV[v] || v.Referrers() == nil {
+						return
+					}
+					seenV[v] = true
+					if d > 8 {
+						dests["?"] = true
+						return
+					}
+					for _, r := range *v.Referrers() {
+						switch x := r.(type) {
+						case *ssa.Phi:
+							follow(x, d+1)
+						case *ssa.Call:
+							if isBuiltinCall(&x.Call, "append") && x.Call.Args[0] == v {
+								follow(x, d+1)
+							} else if isBuiltinCall(&x.Call, "len") {
+								// size only
+							} else {
+								dests["call "+calleeName(&x.Call)] = true
+							}
+						case *ssa.Store:
+							if x.Val != v {
+								continue
+							}
+							switch a := x.Addr.(type) {
+							case *ssa.FieldAddr:
+								if n := namedOf(derefType(a.X.Type())); n != nil {
+									dests[n.Obj().Name()+"."+fieldName(a.X.Type(), a.Field)] = true
+								} else {
+									dests["field"] = true
+								}
+							case *ssa.Alloc:
+								for _, lr := range *a.Referrers() {
+									if u, ok := lr.(*ssa.UnOp); ok && u.Op == token.MUL {
+										follow(u, d+1)
+									}
+								}
+							default:
+								dests["store"] = true
+							}
+						case *ssa.Return:
+							sites := c.callSites().sites[x.Parent()]
+							if len(sites) == 0 || c.callSites().escapes[x.Parent()] {
+								dests["returned"] = true
+							}
+							for _, site := range sites {
+								if cv, ok := site.(ssa.Value); ok {
+									follow(cv, d+1)
+								}
+							}
+						case *ssa.DebugRef:
+						default:
+							dests[fmt.Sprintf("%T", r)] = true
+						}
+					}
+				}
+				for _, av := range appended {
+					follow(av, 0)
+				}
+			}
 			switch {
 			case sorted && onlyAppend:
 				c.ok(key, in.Pos(), "the slice built in the loop is sorted before it is used")
+			case onlyAppend && len(dests) == 1 && dests["Table.AvailableBindings"]:
+				c.ok(key, in.Pos(), "reviewed class: the slice only becomes a table's column list (Table.AvailableBindings), which every consumer treats as a set — membership goes through mbs (TB1) and the projection order comes from the statement")
 			case p11Reviewed[key] != "":
 				c.ok(key, in.Pos(), "reviewed (%s): %s", strings.Join(uniq(effects), ","), p11Reviewed[key])
 			default:
@@ -380,7 +490,7 @@ func ruleP11(c *Ctx, rels ...string) {
 			}
 		})
 	}
-	if nSens < 9 {
+	if nSens < 6 {
 		c.undecided("order-sensitive map ranges", token.NoPos, "only %d found", nSens)
 	}
 }
